@@ -462,6 +462,12 @@ pub fn c09_image(ci: &CleanImage, r: &mut Rng, all_values: bool, stats: &mut C09
 /// `tail_only`: only the last two records of the newest chunk are swept, with one replacement value per byte (for
 /// images whose last record is several kilobytes long).
 pub fn c09_image_x(ci: &CleanImage, r: &mut Rng, all_values: bool, stats: &mut C09Stats, out_viols: &mut Vec<Viol>, deadline: f64, tail_only: bool) -> bool {
+    c09_image_y(ci, r, all_values, stats, out_viols, deadline, tail_only, usize::MAX)
+}
+
+/// `max_vals`: at most that many replacement values per byte (a random subset of the usual ones).
+#[allow(clippy::too_many_arguments)]
+pub fn c09_image_y(ci: &CleanImage, r: &mut Rng, all_values: bool, stats: &mut C09Stats, out_viols: &mut Vec<Viol>, deadline: f64, tail_only: bool, max_vals: usize) -> bool {
     let idir = ImageDir::new("c09");
     let mut complete = true;
     for (fidx, (cid, bytes)) in ci.img.iter().enumerate() {
@@ -483,6 +489,10 @@ pub fn c09_image_x(ci: &CleanImage, r: &mut Rng, all_values: bool, stats: &mut C
                 if tail_only {
                     let k = r.below(vals.len() as u64) as usize;
                     vals = vec![if r.chance(1, 2) { vals[k] } else { bytes[pos] ^ (1 << r.below(8)) }];
+                }
+                while vals.len() > max_vals {
+                    let k = r.below(vals.len() as u64) as usize;
+                    vals.swap_remove(k);
                 }
                 for val in vals {
                     let mut m = ci.img.clone();
@@ -894,7 +904,7 @@ pub fn run_shard(ctx: &mut Ctx) {
             if let Some(lo) = lo {
                 let b = s09.opens;
                 let all = ctx.tier == Tier::Thorough;
-                let done = c09_image(&lo, &mut r, all, &mut s09, &mut viols, deadline);
+                let done = c09_image_y(&lo, &mut r, all, &mut s09, &mut viols, deadline, false, if all { usize::MAX } else { 4 });
                 if done && all {
                     s09.exhaustive_images += 1;
                 }
